@@ -332,8 +332,7 @@ Proof. reflexivity. Qed.
 
 Lemma reinstate_ok w :
   w_failed w = true -> w_logs w = [] ->
-  (forall n, s_has (active w) n = true ->
-     seen_info (w_pcache w) (passive w) n = s_info (active w) n /\ isSome (s_info (active w) n) = true) ->
+  (forall n, s_has (active w) n = true -> isSome (s_info (active w) n) = true) ->
   (forall n, s_has (active w) n = false -> s_info (passive w) n = s_info (active w) n /\ forall l, s_reg (passive w) n l = s_reg (active w) n l) ->
   snd (step w (OReinstate false)) = ROk /\ synced (fst (step w (OReinstate false))) /\ active (fst (step w (OReinstate false))) = active w.
 Proof.
@@ -344,9 +343,18 @@ Proof.
     split; [reflexivity|]. split; [reflexivity|]. split; [reflexivity|].
     unfold side_eq, copy_stores; cbn [s_has s_info s_reg]. split; [|split].
     + intros n. reflexivity.
-    + intros n. destruct (s_has (active w) n) eqn:E; [destruct (H1 n E) as [X _]|destruct (H2 n E) as [X _]]; auto.
+    + intros n. destruct (s_has (active w) n) eqn:E; [reflexivity|destruct (H2 n E) as [X _]]; auto.
     + intros t l. destruct (s_has (active w) t) eqn:E.
-      * destruct (H1 t E) as [X Y]. rewrite X, Y. reflexivity.
+      * rewrite (H1 t E). reflexivity.
       * destruct (H2 t E) as [_ Y]. symmetry; apply Y.
   - rewrite active_with_pcache, active_with_flags, active_with_sides. reflexivity.
+Qed.
+
+(* the passive-key cache entries of the listed stores are gone after a reinstate, whatever they were *)
+Lemma reinstate_evicts w n : w_failed w = true ->
+  s_has (active w) n = true -> w_pcache (fst (step w (OReinstate false))) n = None.
+Proof.
+  intros F H. cbn [step]. rewrite F. cbn [negb].
+  destruct (fast_forward (w_logs w) (copy_stores (active w) (passive w))) as [[p2 logs] ok].
+  destruct ok; cbn [fst with_pcache w_pcache]; unfold copy_cache; rewrite H; reflexivity.
 Qed.
